@@ -150,12 +150,6 @@ def encodings(addr):
         pa, bo = addr >> n, addr & ((1 << n) - 1)
         if pa <= 15 and bo <= 15:
             out.append((pa, bo, n))
-        if n >= 4:
-            # also page_addr one lower with a byte offset beyond the page (still < 16)
-            pa2 = pa - 1
-            bo2 = addr - (pa2 << n)
-            if 0 <= pa2 <= 15 and bo2 <= 15 and (pa2, bo2, n) not in out:
-                out.append((pa2, bo2, n))
     return out
 
 
